@@ -15,6 +15,8 @@
 package ggql
 
 import (
+	"fmt"
+	"math"
 	"strconv"
 )
 
@@ -56,16 +58,32 @@ func (*int64Scalar) CoerceIn(v interface{}) (interface{}, error) {
 	return v, err
 }
 
+// int64FromUint64 converts to an int64 or returns an error if out of range.
+func int64FromUint64(u uint64) (interface{}, error) {
+	if math.MaxInt64 < u {
+		return nil, fmt.Errorf("%w %d into a Int64, out of range", ErrCoerce, u)
+	}
+	return int64(u), nil
+}
+
+// int64FromFloat64 truncates to an int64 or returns an error if not a number
+// or out of range.
+func int64FromFloat64(f float64) (interface{}, error) {
+	if math.IsNaN(f) || f < math.MinInt64 || math.MaxInt64 <= f {
+		return nil, fmt.Errorf("%w %g into a Int64, out of range", ErrCoerce, f)
+	}
+	return int64(f), nil
+}
+
 // CoerceOut coerces a result value into a type for the scalar.
 func (t *int64Scalar) CoerceOut(v interface{}) (interface{}, error) {
 	var err error
 	switch tv := v.(type) {
 	case nil:
-	// remains nil
 	case float32:
-		v = int64(tv)
+		v, err = int64FromFloat64(float64(tv))
 	case float64:
-		v = int64(tv)
+		v, err = int64FromFloat64(tv)
 	case int:
 		v = int64(tv)
 	case int8:
@@ -75,9 +93,8 @@ func (t *int64Scalar) CoerceOut(v interface{}) (interface{}, error) {
 	case int32:
 		v = int64(tv)
 	case int64:
-		// ok as is
 	case uint:
-		v = int64(tv)
+		v, err = int64FromUint64(uint64(tv))
 	case uint8:
 		v = int64(tv)
 	case uint16:
@@ -85,7 +102,7 @@ func (t *int64Scalar) CoerceOut(v interface{}) (interface{}, error) {
 	case uint32:
 		v = int64(tv)
 	case uint64:
-		v = int64(tv)
+		v, err = int64FromUint64(tv)
 	case string:
 		var i int64
 		if i, err = strconv.ParseInt(tv, 10, 64); err == nil {
